@@ -52,7 +52,7 @@ Next ==
   /\ l' = l + 1
   /\ LET ev == Rec[l] IN
      IF ev.a = "reset" THEN run' = run + 1 /\ skip' = FALSE /\ UNCHANGED bad
-     ELSE IF skip THEN UNCHANGED <<run, skip, bad>>
+     ELSE IF skip \/ ev.res = "skipped" THEN UNCHANGED <<run, skip, bad>>   \* "skipped": a schedule step naming a peer that does not exist
      ELSE LET w == Why(ev) IN
           IF w = "ok" THEN UNCHANGED <<run, skip, bad>>
           ELSE bad' = Append(bad, [run |-> run, line |-> l, why |-> w]) /\ skip' = TRUE /\ UNCHANGED run
